@@ -3,7 +3,8 @@
 #
 # Sensitivity regression: every change stored under seeded/ that meta.json lists as detected
 # must still be reported by the check named first in "detected_by_quick_checks" (tier quick),
-# or -- for the changes listed as thorough-only -- by nothing at quick.
+# With tier = thorough only the changes with a "detected_by_thorough_checks" entry are run
+# (those that the quick tier is too coarse for).
 #
 # Works entirely on scratch copies (a git worktree of /repo HEAD and a copy of /verif whose
 # path dependency points at that worktree) under $SCRATCH, so neither /repo nor /verif is
@@ -21,8 +22,9 @@ sed -i "s#path = \"/repo\"#path = \"$SCRATCH/repo\"#" $SCRATCH/verif/sim/Cargo.t
 bad=0
 for id in $ids; do
   meta=/verif/seeded/$id/meta.json
-  props=$(python3 -c "import json,sys; print(' '.join(json.load(open('$meta')).get('detected_by_quick_checks',[])))")
-  if [ -z "$props" ]; then echo "$id: not listed as detected at quick (skipped)"; continue; fi
+  field=detected_by_quick_checks; [ "$tier" = thorough ] && field=detected_by_thorough_checks
+  props=$(python3 -c "import json,sys; print(' '.join(json.load(open('$meta')).get('$field',[])))")
+  if [ -z "$props" ]; then echo "$id: not listed in $field (skipped)"; continue; fi
   p=${props%% *}
   ( cd $SCRATCH/repo && git checkout -q -- . && git apply /verif/seeded/$id/patch.diff ) || { echo "$id: PATCH-DOES-NOT-APPLY"; bad=1; continue; }
   s=$(date +%s)
